@@ -19,7 +19,7 @@ type tdRaceStream struct{}
 
 func (tdRaceStream) Name() string               { return "tdrace" }
 func (tdRaceStream) CaseTimeout() time.Duration { return 120 * time.Second }
-func (tdRaceStream) NoModel() bool               { return true }
+func (tdRaceStream) NoModel() bool              { return true }
 func (tdRaceStream) Rule() string {
 	return "a live test directory (plain listener) serving C concurrent clients (2..6) that issue binds, user / group / generic searches, adds, modifies and deletes, while application goroutines call SetUsers, SetGroups, SetControls, SetTokenGroups, SetAllowAnonymousBind and the getters in a loop; run under the race detector; oracle: no race report with a frame in github.com/jimlambrt/gldap, no panic, every request answered; non-trivial = every scenario, distinct by seed"
 }
